@@ -28,7 +28,11 @@ def gen_decls(rng):
             P(ch(t_name("b"))), fn("count", P(ch(T_ANY))), fn("concat", P(at(t_name("x"))), lit("")), P(step("parent", T_NODE), at(t_name("x"))), lit("t"),
             # current() inside use is the node being indexed (12.2); values that are numbers
             path([at(t_name("x"))], start=fn("current")), fn("string-length", P(step("self", T_NODE))), fn("local-name", P(step("parent", T_NODE, abbr=False))),
-            fn("count", P(step("preceding-sibling", T_NODE, abbr=False)))]
+            fn("count", P(step("preceding-sibling", T_NODE, abbr=False))),
+            # 12.2: the use expression sees a current node list of just the node - position() and last() are 1; and expressions that expand a
+            # QName while the table is being built (the key name of the call must survive them)
+            fn("position"), fn("last"), bin_("+", fn("position"), fn("count", P(at(T_ANY)))),
+            fn("concat", P(at(t_name("x"))), fn("function-available", lit("concat"))), fn("string", fn("element-available", lit("xsl:if")))]
     # key names: k, j; N = a QName key whose prefix differs between declaration and use (same expanded name); O = same local name in another namespace
     names = ["k", "k", "j", "N", "O"]
     n = rng.randint(1, 3)
